@@ -34,7 +34,7 @@ RangeOK(name, cfg, c, v, kinds) ==
       [] name = "MoneyFlowIndex" -> In01(v[2])
       [] name = "StochasticOscillator" -> AllNonNeg(kinds) => (In01(v[1]) /\ In01(v[2]))
       \* volume-normalised quantities are undefined (0/0) on zero total volume; relative changes need positive inputs
-      [] name = "ChaikinMoneyFlow" -> RNum(v[1]) => In11(v[1])
+      [] name = "ChaikinMoneyFlow" -> (RNum(v[1]) /\ c.v.s > 0) => In11(v[1])      \* (a bar with volume makes the total volume non-zero)
       [] name = "ChandeMomentumOscillator" -> In11(v[1])
       [] name = "TrueStrengthIndex" -> In11(v[1])
       [] name = "SMIErgodicIndicator" -> In11(v[1])
